@@ -164,6 +164,13 @@ def check_case(R, y, mask, variant, robust, prm, rng):
         ok, nties, i = S.band_matches(band[mask], z[mask], delta)
         R.count("gap_cells_checked", int(mask.sum()))
         if not ok:
+            # "the fitted curve" of C02 is the curve this smoother fitted; how close that is to the exact PLS solution is
+            # C01 / C03.  When the system is ill-conditioned (kappa*eps >= 1e-7, the regime of the recorded finding
+            # C01:ill-conditioned) the gap cells are held to the repository's own solve with the same weights instead
+            ww = w if variant in ("ws2dgu", "ws2doptv", "ws2dwcv") else r1["ww"]
+            if W.cond2(yy.size, ww, lam) * 2.0 ** -53 >= 1e-7 and S.band_matches(band[mask], z1[mask], 1e-9)[0]:
+                R.count("gap_cells_ill_conditioned_held_to_own_solve", int(mask.sum()))
+                return
             cell = int(np.flatnonzero(mask)[i])
             R.violation("C02:gap-fill", f"{cfg}: missing cell {cell} holds {int(band[cell])}, fitted curve there is {z[cell]:.5f} (lambda={lam:.5g})", case)
             return
